@@ -22,8 +22,11 @@ Lemma C13_subset_empty_refuted :
   /\ optimize (W_ex []) 10 (PSubset []) = Ok (PSubset []) [].
 Proof. split; vm_compute; reflexivity. Qed.
 
+Print Assumptions C13_subset_empty_refuted.
 (* non-vacuity: the statement's hypothesis holds for atoms with parameters, and the laws say something *)
 Example C13_nonvacuous :
   law_atom_ok (PGeLe 1 5) = true /\ law_atom_ok (PIn [1%Q; 2%Q; 2%Q]) = true /\
   optimize (W_ex []) 9 (PXor (PIn [1%Q; 2%Q]) PTrue) = Ok (PNotIn [1%Q; 2%Q]) [].
 Proof. repeat split; vm_compute; reflexivity. Qed.
+
+Print Assumptions C13_nonvacuous.
